@@ -100,11 +100,11 @@ func (w *worker) productCase(c Case, maxLen int) {
 				h[i].Ctx = x % nctx
 				x /= nctx
 			}
-			n, vc, sig := w.runGenHistory(c, src, h, false)
+			n, vc, class := w.runGenHistory(c, src, h, false)
 			r.Transitions(int64(n))
 			r.States(1)
 			if vc != nil {
-				w.report(sig, vc)
+				w.report(class, vc)
 				continue
 			}
 			r.Traces(1)
